@@ -50,11 +50,10 @@ func GetApparmorLogs(file io.Reader, profile string) []string {
 	scanner := bufio.NewScanner(file)
 	scanner.Buffer(make([]byte, 0, bufio.MaxScanTokenSize), maxLineSize)
 	for scanner.Scan() {
-		line := scanner.Text()
+		// Decode first: the profile filter has to see a hex-encoded profile name too
+		line := util.DecodeHexInString(scanner.Text())
 		if isAppArmorLog.MatchString(line) {
-			logs = append(logs,
-				regCleanLogs.Replace(util.DecodeHexInString(line)),
-			)
+			logs = append(logs, regCleanLogs.Replace(line))
 		}
 	}
 	return util.RemoveDuplicate(logs)
